@@ -549,7 +549,13 @@ class BWalk(omp.Region):
                 env.update(e1)
                 return dict(ctx, facts=ctx["facts"] + ft)
             joined = []
-            for n in sorted(set(e1) | set(e2)):
+            for n in sorted(set(e1) | set(e2), key=str):
+                if isinstance(n, tuple):   # local pointer alias: kept only when both branches agree
+                    if e1.get(n) == e2.get(n) and e1.get(n) is not None:
+                        env[n] = e1[n]
+                    else:
+                        env.pop(n, None)
+                    continue
                 if e1.get(n) != e2.get(n):
                     env[n] = omp.unk(n)
                     if e1.get(n) is not None and e2.get(n) is not None:
